@@ -278,3 +278,4 @@ _add("C19", "text", "Generator class names may collide (results are keyed by pat
 _add("C20", "text", "Jobs with --filter-acl <dir> (one ACL file per device, the worker's shared stdin dict).")
 _add("C07", "note", "Known gap: a `~` glued to the preceding text of a word (`name:~`) is outside the token language.")
 _add("C15", "text", "Topology a1 -- b2.dc1, a1 -- b2.dc2 under match_short_name: two neighbours sharing a short name are two sessions.")
+_add("C11", "note", "Known finding: a VLAN id that leaves the huawei `vlan batch` lines but stays declared by a `vlan N` block is removed by `undo vlan batch` (targeted case in every run).")
